@@ -164,6 +164,8 @@ def analyse(steps, trailing_notes=()):
     out_pids = {}  # ep -> next data packet id (tracked from send returns)
     hostile = False
     window_exceeded_flag = False
+    closed_state = {}
+    twin_a = None
     flush_log = []  # (ep, now_ms, emitted, step)
     update_log = []
     connected_ms = {}
@@ -358,6 +360,19 @@ def analyse(steps, trailing_notes=()):
             update_log.append((int(a[0]), now_ms, [e for e in st.events if e.startswith("disconnect ")], st))
         if op == "nodes":
             nodes_checks.append((ret, st, drained))
+        if op == "closed" and ret:
+            rr = ret.split()
+            if len(rr) == 2 and rr[0] == "1":
+                closed_state[int(a[0])] = int(rr[1])
+        if "twin-a" in st.notes:
+            twin_a = st
+        if "twin-b" in st.notes and twin_a is not None:
+            norm = lambda evs, lid: [re.sub(r"^(out|accept) %s " % lid, r"\1 L ", e) for e in evs if e.startswith(("out ", "accept ", "ret "))]
+            ea = norm(twin_a.events, twin_a.args[0])
+            eb = norm(st.events, a[0])
+            if ea != eb:
+                V.append(Violation("C08", "history", "a listener that saw earlier traffic answers differently from its twin that did not: %s vs %s" % (ea[:4], eb[:4]), st))
+            twin_a = None
         if op == "seqinit":
             last_recv[int(a[0])] = now_ms
             last_emit[int(a[0])] = now_ms
@@ -537,6 +552,13 @@ def analyse(steps, trailing_notes=()):
                     V.append(Violation("C10", "lost", "reliable data of a closed channel %d never delivered" % ch, w["step"]))
                 if w["flags"] & 64:
                     V.append(Violation("C03", "lost", "reliable partial group never delivered", w["step"]))
+    # ---------------- C18 / C11: a genuine datagram that the peer could not parse
+    if not hostile:
+        for ep, reason in list(closed_state.items()) + list(closed_conn.items()):
+            if reason in (4, 7, 9, 10, 12, 13) and stats["groups_max"] <= 256 and not any(s_.op in ("raw", "mut", "craft") for s_ in steps):
+                V.append(Violation("C18", "parse", "endpoint %d closed with reason %d: a datagram emitted by its peer and delivered unmodified could not be parsed" % (ep, reason)))
+                V.append(Violation("C11", "wire", "endpoint %d closed with reason %d while parsing a genuine datagram" % (ep, reason)))
+                break
     # ---------------- C16: nothing retained when quiescent
     # (an unreliable group whose tail was lost legitimately stays half assembled until the next initial fragment: "no partial group is pending" fails)
     unrel_partial_at_risk = any(w["flags"] & 64 and not w["flags"] & 8 for lst in sent.values() for w in lst) and (stats["drops"] > 0 or stats["skipacks"] > 0 or any(s_.op == "dlv" for s_ in steps))
